@@ -468,7 +468,28 @@ func sideColumnTypeAssigned(c *Ctx) (bool, string) {
 		return false, "ColumnDefinition.DataType not found"
 	}
 	set := ts.ofField(fld, 0).without("nil")
-	want := map[string]bool{"sql.NumericType": true, "sql.BigIntType": true, "sql.CharacterStringType": true, "sql.BooleanType": true}
+	// the arms CREATE TABLE has: the case types of the type switch over the column's DataType
+	want := map[string]bool{}
+	if ct := c.W.F("engine.EvaluateCreateTable"); ct != nil {
+		ast.Inspect(ct.Decl.Body, func(x ast.Node) bool {
+			ts, ok := x.(*ast.TypeSwitchStmt)
+			if !ok {
+				return true
+			}
+			for _, cl := range ts.Body.List {
+				cc := cl.(*ast.CaseClause)
+				for _, e := range cc.List {
+					if t := ct.TypeOf(e); t != nil {
+						want[typeName(t)] = true
+					}
+				}
+			}
+			return true
+		})
+	}
+	if len(want) == 0 {
+		return false, "EvaluateCreateTable has no type switch over the column types"
+	}
 	if set.Top {
 		return false, "ColumnDefinition.DataType can hold anything"
 	}
@@ -793,6 +814,7 @@ func c18NoService(c *Ctx, rule string) {
 // ---- C18.3 --------------------------------------------------------------------------------------
 
 func c18Locks(c *Ctx, rule string) {
+	c.Robust(rule)
 	c.Rule(rule, "no statement can hang on the store lock: every acquisition of the store's RWMutex (directly or through StartTxn/lockShared/lockExclusive) is released on every path to the function's exit (deferred, or explicitly before each return), and no further acquisition of the store lock is reachable from inside a bracket (sync.RWMutex self-deadlocks on a nested exclusive acquisition, and on a nested shared one as soon as the flusher waits for the exclusive lock; the flush CREATE TABLE ends with must run after its bracket is released)")
 	w := c.W
 	m := w.Locks()
